@@ -112,7 +112,7 @@ func (m *engineImpl) bgSettle() string {
 		}
 		if p := b.progress.Load(); p != last {
 			last, stable = p, 0
-		} else if stable++; stable >= 6 {
+		} else if stable++; stable >= 12 {
 			return "blocked"
 		}
 	}
